@@ -43,6 +43,8 @@ pub struct Snap {
     pub in_dim: usize,
     pub root: usize,
     pub nodes: BTreeMap<usize, SNode>,
+    /// non-finite numbers met while reading the arena (read as 0); a well-formed tree has none
+    pub nonfinite: Vec<String>,
 }
 
 pub fn arr2_to_q(m: &ndarray::Array2<f64>) -> Vec<Vec<Q>> {
@@ -54,12 +56,23 @@ pub fn arr1_to_q(m: &ndarray::Array1<f64>) -> Vec<Q> {
 
 pub fn snap<const K: usize>(t: &AffTree<K>) -> Snap {
     let mut nodes = BTreeMap::new();
+    let mut nonfinite: Vec<String> = vec![];
     for (idx, nd) in t.tree.node_iter() {
+        let mut safe = |x: f64, what: &str| -> Q {
+            if x.is_finite() {
+                Q::from_f64(x)
+            } else {
+                if nonfinite.len() < 4 {
+                    nonfinite.push(format!("node {idx}: {what} contains {x}"));
+                }
+                Q::ZERO
+            }
+        };
         let st = match &nd.value.state {
             NodeState::Indeterminate => SState::Indet,
             NodeState::Infeasible => SState::Infeasible,
             NodeState::Feasible => SState::Feasible,
-            NodeState::FeasibleWitness(w) => SState::Witness(w.iter().map(|p| arr1_to_q(p)).collect()),
+            NodeState::FeasibleWitness(w) => SState::Witness(w.iter().map(|p| p.iter().map(|x| safe(*x, "cached witness")).collect()).collect()),
         };
         nodes.insert(
             idx,
@@ -67,14 +80,14 @@ pub fn snap<const K: usize>(t: &AffTree<K>) -> Snap {
                 parent: nd.parent,
                 children: nd.children.to_vec(),
                 isleaf: nd.isleaf,
-                mat: arr2_to_q(&nd.value.aff.mat),
+                mat: nd.value.aff.mat.outer_iter().map(|r| r.iter().map(|x| safe(*x, "matrix")).collect()).collect(),
                 ncols: nd.value.aff.mat.shape()[1],
-                bias: arr1_to_q(&nd.value.aff.bias),
+                bias: nd.value.aff.bias.iter().map(|x| safe(*x, "bias")).collect(),
                 state: st,
             },
         );
     }
-    Snap { k: K, in_dim: t.in_dim, root: t.tree.get_root_idx(), nodes }
+    Snap { k: K, in_dim: t.in_dim, root: t.tree.get_root_idx(), nodes, nonfinite }
 }
 
 #[derive(Clone, Debug)]
@@ -301,11 +314,69 @@ pub fn to_arr1(x: &[Q]) -> Option<Array1<f64>> {
 /// Returns Ok(true) if a call was made and agreed, Ok(false) if the point is not
 /// exactly representable, Err(description) on disagreement.
 pub fn conform<const K: usize>(t: &AffTree<K>, s: &Snap, x: &[Q], exact_values: bool) -> Result<bool, String> {
+    conform_opt(t, s, x, exact_values, true)
+}
+
+/// Conformance at the witness of a face and, for every hyperplane the face lies on, at points
+/// 2^-30 and 2^-40 to either side of it (distances far below the library's 1e-8 containment
+/// tolerance): the real evaluator must take the documented branch there too.
+pub fn conform_face<const K: usize>(t: &AffTree<K>, s: &Snap, face: &crate::regions::Face, exact_values: bool) -> (u64, Option<String>) {
+    let mut n = 0u64;
+    let mut err = None;
+    match conform(t, s, &face.w, exact_values) {
+        Ok(true) => n += 1,
+        Ok(false) => {}
+        Err(e) => err = Some(e),
+    }
+    // Probes are only made where the real f64 evaluation is exact: every decision coefficient a
+    // multiple of 1/4 with |a| <= 4, every decision bias and witness coordinate a multiple of 1/4 with
+    // |.| <= 64 resp. 16. Then every partial sum a.x - b at a probe point needs < 53 bits.
+    let small = |v: &Q, lim: i64| -> bool {
+        match v {
+            Q::S(n, d) => (*d == 1 || *d == 2 || *d == 4) && n.abs() <= (lim as i128) * (*d),
+            _ => false,
+        }
+    };
+    let safe = s.nodes.values().filter(|n| !n.isleaf).all(|n| n.mat.iter().flatten().all(|v| small(v, 4)) && n.bias.iter().all(|v| small(v, 64)))
+        && face.w.iter().all(|v| small(v, 16));
+    if !safe {
+        return (n, err);
+    }
+    for (f, sgn) in &face.cons {
+        if *sgn != 0 {
+            continue;
+        }
+        if !f.a.iter().all(|v| small(v, 4)) {
+            continue;
+        }
+        // move along one coordinate so that the form changes by exactly +-delta
+        let j = match f.a.iter().position(|v| *v == Q::ONE || *v == Q::int(-1)).or_else(|| f.a.iter().position(|v| !v.is_zero())) {
+            Some(j) => j,
+            None => continue,
+        };
+        for e in [30i32, 40] {
+            for sg in [1i64, -1] {
+                let delta = &Q::frac(sg, 1i64 << e) / &f.a[j];
+                let mut p = face.w.clone();
+                p[j] = &p[j] + &delta;
+                match conform_opt(t, s, &p, false, false) {
+                    Ok(true) => n += 1,
+                    Ok(false) => {}
+                    Err(e) => err = Some(format!("near the boundary (x = {:?}): {e}", p.iter().map(|q| q.to_f64()).collect::<Vec<_>>())),
+                }
+            }
+        }
+    }
+    (n, err)
+}
+
+/// `values`: compare the output values as well (otherwise only definedness and the label sequence)
+pub fn conform_opt<const K: usize>(t: &AffTree<K>, s: &Snap, x: &[Q], exact_values: bool, values: bool) -> Result<bool, String> {
     let xf = match to_arr1(x) {
         Some(v) => v,
         None => return Ok(false),
     };
-    if xf.iter().any(|v| v.abs() > 1e6 || (*v != 0.0 && v.abs() < 1e-6)) {
+    if xf.iter().any(|v| v.abs() > 1e6 || (values && *v != 0.0 && v.abs() < 1e-6)) {
         return Ok(false);
     }
     let mine = s.route_plain(x);
@@ -334,6 +405,9 @@ pub fn conform<const K: usize>(t: &AffTree<K>, s: &Snap, x: &[Q], exact_values: 
             let exp = m.apply(x);
             if exp.len() != val.len() {
                 return Err("output length differs".into());
+            }
+            if !values {
+                return Ok(true);
             }
             for (e, v) in exp.iter().zip(val.iter()) {
                 let ef = e.to_f64();
